@@ -11,6 +11,12 @@ from implrun import new_app, environ, call
 import dispatch_common as dc
 
 SCRATCH = "/root/scratch"
+TBODIES = [("bytes", b"tb"), ("str", "tb"),
+           ("str", "\u017dlu\u0165ou\u010dk\u00fd"),
+           ("bytes", b"\xff\x00"), ("str", "\u4e2d")]
+TCTYPES = ["application/x-t", "text/plain", "text/html", "text/css",
+           "text/x-t; a=b", "text/plain; charset=iso-8859-2",
+           "text/plain; charset=ascii", "application/x-t; charset=utf-16"]
 NONASCII = [("X-Greeting", "Dobr\u00fd den \u4e2d"),
             ("X-Looks-Converted", "\u00c3\u00a9")]
 EXTRA = [("X-One", "1"), ("Set-Cookie", "a=1"), ("Set-Cookie", "b=2"),
@@ -107,6 +113,11 @@ def run(ctx):
         for method in ("GET", "HEAD"):
             scenarios.append(dc.Scenario(leaf=("endpoint", ("ret", v)),
                                          method=method))
+        # an application-wide exception handler is not asked about a value
+        # the framework cannot turn into a response
+        scenarios.append(dc.Scenario(
+            leaf=("endpoint", ("ret", v)), method="GET",
+            ehandlers=[(10, {2: ("ret", ("str", "from-error-handler"))})]))
     for _ in range(n):
         roll = rng.random()
         if roll < 0.3:
@@ -126,7 +137,11 @@ def run(ctx):
         else:
             st = rng.choice(sorted(responses))
             hk = rng.choice(["hdrs", "hdrs_list", "hdrs_obj"])
-            v = ("tuple", [("bytes", b"tb"), ("str", "application/x-t"),
+            # the body and the content type of a tuple are independent:
+            # text or bytes, of any type, arrive as given
+            tbody = rng.choice(TBODIES[:1] * 3 + TBODIES)
+            tct = rng.choice(TCTYPES[:1] * 2 + TCTYPES)
+            v = ("tuple", [tbody, ("str", tct),
                            (hk, rng.sample(EXTRA + NONASCII,
                                            rng.randint(0, 5))),
                            ("int", st)][:rng.randint(1, 4)])
@@ -168,14 +183,18 @@ def run(ctx):
         elif v[0] in ("obj", "int", "dict_bad", "list_bad"):
             if ans.code != 500:
                 bad("garbage-not-500", det, ans)
-        elif v[0] == "tuple" and v[1] and v[1][0] == ("bytes", b"tb"):
+        elif v[0] == "tuple" and v[1] and v[1][0] in TBODIES and \
+                (len(v[1]) == 1 or v[1][1][0] == "str" and
+                 v[1][1][1] in TCTYPES):
             items = v[1]
-            if ans.body != b"tb":
+            want_body = items[0][1] if items[0][0] == "bytes" else \
+                items[0][1].encode("utf-8")
+            if ans.body != want_body:
                 bad("tuple-body", det, ans)
             # a 304 answer carries no representation headers (RFC 9110
             # 15.4.5; the framework leaves Content-Type/-Length out)
             if len(items) > 1 and ans.code != 304 and \
-                    ans.header("Content-Type") != "application/x-t":
+                    ans.header("Content-Type") != items[1][1]:
                 bad("tuple-content-type", det, ans)
             if len(items) > 2:
                 given = items[2][1]
